@@ -25,6 +25,9 @@ type Case struct {
 	K2       int    `json:"k2"`       // > K: during the resume, statement index K2 of the new file fails too; a third run follows (0 = no second failure)
 	Edit     string `json:"edit"`     // how New was derived (for humans / evidence classes)
 	CLI      bool   `json:"cli"`      // run through the real binary on a SQLite file
+	// Quiet (API tier): the first attempt ends like a killed process - the write that would record the failure is lost, so
+	// the stored revision has Applied=K and no error text
+	Quiet bool `json:"quiet,omitempty"`
 }
 
 func stmtText(id int) string { return fmt.Sprintf("INSERT INTO journal (id) VALUES (%d);", id) }
@@ -96,16 +99,23 @@ func checkAPI(c Case) error {
 	drv := &fake.Driver{}
 	revs := fake.NewRevs()
 	drv.FailIf = func(_ string, call int) bool { return call == c.K }
+	if c.Quiet {
+		revs.FailWrite = func(_ int, r *migrate.Revision) bool { return r.Error != "" }
+	}
 	ex, err := migrate.NewExecutor(drv, dir, revs)
 	if err != nil {
 		return fmt.Errorf("harness: %v", err)
 	}
 	err = ex.ExecuteN(ctx, 0)
+	revs.FailWrite = nil
 	var se *migrate.StmtExecError
 	if !errors.As(err, &se) {
 		return fmt.Errorf("first attempt: want StmtExecError at statement %d, got %v", c.K, err)
 	}
 	before, ok := revs.Snapshot()["1"]
+	if c.Quiet && ok && before.Error != "" {
+		return fmt.Errorf("harness: the failure was recorded although its write was refused: %+v", before)
+	}
 	if !ok || before.Applied != c.K || before.Total != len(c.Old) {
 		return fmt.Errorf("first attempt: revision %+v, want Applied=%d Total=%d", before, c.K, len(c.Old))
 	}
